@@ -90,6 +90,13 @@ def body_pointwise(case):
         b_r, e_r = beta[::-1].copy(), log_e[::-1].copy()
         if check_overlapping(lambda: taus.tau_exit_prob(beta, log_e), lambda: other.tau_exit_prob(b_r, e_r), case["preempt"], f"Taus.tau_exit_prob ({len(beta)} events, {'two objects' if other is not taus else 'one object'})"):
             labels.add("overlapping_calls")
+        # ... and the non-nested schedule: first call suspended, second started and suspended, first finishes, second finishes
+        from ..interleave import check_two_switches
+
+        ks_ = case["preempt"]
+        pairs_ = [(ks_[i] % 32, ks_[(i + 1) % len(ks_)] % 32) for i in range(len(ks_))] + [(ks_[0] % 32, j) for j in (3, 9, 14, 20, 26)]
+        if check_two_switches(lambda: taus.tau_exit_prob(beta, log_e), lambda: other.tau_exit_prob(b_r, e_r), pairs_, f"Taus.tau_exit_prob ({len(beta)} events, table v{version}, {'two objects' if other is not taus else 'one object'})"):
+            labels.add("overlapping_calls_two_switches")
     low = beta < BETA_MIN
     if low.any():
         labels.add("below_min")
@@ -154,6 +161,12 @@ def body_history(case):
         if v not in shared:
             with cut("Taus()"):
                 shared[v] = _taus(v)
+            if case.get("edit_before_first_call"):
+                # the configuration object is re-used for the next table version right after construction (a loop that
+                # builds one module object per version from ONE configuration): the tables of an object are the ones of
+                # the version it was constructed with, also when its first call comes after the edit
+                shared[v].config.simulation.tau_shower.table_version = {"1": "3", "2": "1", "3": "2"}[v]
+                labels.add("configuration_edited_before_first_call")
         with cut(f"step {step}: {op['op']} on a reused Taus"):
             got = _run_op(shared[v], op)
         with cut(f"step {step}: {op['op']} on a fresh Taus"):
@@ -258,7 +271,7 @@ SUBCHECKS = [
     ),
     SubCheck(
         "history",
-        st.fixed_dictionaries({"ops": st.lists(op_st, min_size=2, max_size=8)}),
+        st.fixed_dictionaries({"ops": st.lists(op_st, min_size=2, max_size=8), "edit_before_first_call": st.booleans()}),
         body_history,
         lambda labels: "len>=3" in labels and "clamped_angle" in labels,
         {"quick": 250, "thorough": 10000},
